@@ -387,4 +387,141 @@ def bufferedCoordsR (rnd : Rat → Rat) (g : Geom) (tb fb : Rat) : Option (List 
   | .ok (.box s l e h) => some [s, l, e, h]
   | _ => none
 
+/-! ### follow-up 2: the buffered time extent, stated independently of the buffering code
+
+  The property speaks of "the intersection-over-union of the (buffered) time extents".  For a point /
+  line type the buffered extent used above is `G.st / G.en` of `G.buffered g tb fb`, i.e. whatever the
+  library's own `buffer_geometry` returned.  Here the extent is pinned from the *coordinates*: a
+  geometry whose raw time bounds are `[s, e]` buffered by `tb` has the ideal extent
+  `[max (s - tb) 0, e + tb]`; a polygonal buffer (round caps are 32-gons, mitre joins can reach
+  beyond one buffer) is admitted between a `ρ`-buffer and a `κ`-buffer (`ρ ≤ 1 ≤ κ`). -/
+
+/-- floating-point slack of the run-time monitor: `tol · max(1, |x|)` (`tol = 0` in the exact statements) -/
+def slack (tol x : Rat) : Rat := tol * max 1 (absR x)
+
+/-- the ideal buffered time extent of raw time bounds `[s, e]` -/
+def idealExtent (s e tb : Rat) : Rat × Rat := (max (s - tb) 0, e + tb)
+
+/-- the four ends between which an admissible buffered extent lies: start not before `stLo`, not after
+    `stHi`; end not before `enLo`, not after `enHi` -/
+structure ExtentBox where
+  stLo : Rat
+  stHi : Rat
+  enLo : Rat
+  enHi : Rat
+  deriving Repr, Inhabited, DecidableEq
+
+def extentBox (ρ κ tol s e tb : Rat) : ExtentBox :=
+  { stLo := max (s - κ * tb) 0 - slack tol (max (s - κ * tb) 0)
+    stHi := max (s - ρ * tb) 0 + slack tol (max (s - ρ * tb) 0)
+    enLo := e + ρ * tb - slack tol (e + ρ * tb)
+    enHi := e + κ * tb + slack tol (e + κ * tb) }
+
+/-- `[st, en]` is an admissible time extent of the buffer (by `tb`) of a geometry with raw time bounds
+    `[s, e]`: each end moved outwards by at least `ρ` buffers (or reached time 0) and by at most `κ`
+    buffers.  `ρ = κ = 1`, `tol = 0`: exactly the ideal extent. -/
+def extentWithin (ρ κ tol s e tb st en : Rat) : Bool :=
+  let B := extentBox ρ κ tol s e tb
+  decide (B.stLo ≤ st) && decide (st ≤ B.stHi) && decide (B.enLo ≤ en) && decide (en ≤ B.enHi)
+
+/-- overlap length and union length of two time extents (the numerator and denominator of `timeIoU`) -/
+def timeInter (s1 e1 s2 e2 : Rat) : Rat := max 0 (min e1 e2 - max s1 s2)
+
+def timeUnion (s1 e1 s2 e2 : Rat) : Rat := (e1 - s1) + (e2 - s2) - timeInter s1 e1 s2 e2
+
+/-- the interval in which `timeIoU st en s2 e2` lies when `stLo ≤ st ≤ stHi` and `enLo ≤ en ≤ enHi`
+    (overlap is largest and union smallest … on the outer resp. inner extent; both are monotone in
+    either end): smallest overlap over largest union, largest overlap over smallest union -/
+def timeIoUBand (B : ExtentBox) (s2 e2 : Rat) : Rat × Rat :=
+  let iIn := timeInter B.stHi B.enLo s2 e2
+  let uIn := timeUnion B.stHi B.enLo s2 e2
+  let iOut := timeInter B.stLo B.enHi s2 e2
+  let uOut := timeUnion B.stLo B.enHi s2 e2
+  (if uOut = 0 then 0 else iIn / uOut,
+   if uIn ≤ 0 then (if iOut = 0 then 0 else 1) else min 1 (iOut / uIn))
+
+/-- the band of the time-only affinity of a buffered geometry (raw bounds `[s, e]`, buffer `tb`) against
+    the time extent `[s2, e2]` -/
+def extentBand (ρ κ tol s e tb s2 e2 : Rat) : Rat × Rat := timeIoUBand (extentBox ρ κ tol s e tb) s2 e2
+
+/-- the point and line types whose buffer GEOS computes -/
+def geosBuffered : Geom → Bool
+  | .point .. => true
+  | .lineString _ => true
+  | .multiPoint _ => true
+  | .multiLineString _ => true
+  | _ => false
+
+/-- what the run-time monitor evaluates for a time-branch pair with one GEOS-buffered side `g` and a
+    time-only side `h`: the band of admissible affinities read off the *coordinates* of `g`
+    (`none`: not such a pair, or an empty geometry) -/
+def bufferedTimeBand (ρ κ tol : Rat) (g h : Geom) (tb fb : Rat) : Option (Rat × Rat) :=
+  if geosBuffered g && timeTypes.contains h.tag then
+    match g.bounds, prepare unitGeos h tb fb with
+    | some b, .ok p => some (extentBand ρ κ tol b.st b.en tb (timeBounds unitGeos p).1 (timeBounds unitGeos p).2)
+    | _, _ => none
+  else none
+
+/-- `v` lies in the band, up to the absolute tolerance `atol` of the binary64 evaluation -/
+def inBand (band : Rat × Rat) (atol v : Rat) : Bool := decide (band.1 - atol ≤ v) && decide (v ≤ band.2 + atol)
+
+/-! #### the buffered shape against the pipeline contract, in both branches
+
+  bounds (time and frequency) and area of `buffer_geometry g tb fb` for a GEOS-buffered `g`, judged
+  from the coordinates of `g`: the hypotheses `CoversDisc ρ` / `ReachAtMost κ` of the pipeline theorems
+  at the level of bounds, and for the area the two discs of radii `ρ` and `κ` (an ellipse with
+  semi-axes `ρ·tb`, `ρ·fb` around one vertex is contained, `n` ellipses / the outer rectangle contain) -/
+
+/-- the frequency axis: as `extentWithin`, with the clamp at `MAXF` on the upper side -/
+def freqWithin (ρ κ tol l h fb lo hi : Rat) : Bool :=
+  decide (max (l - κ * fb) 0 - slack tol (max (l - κ * fb) 0) ≤ lo) &&
+  decide (lo ≤ max (l - ρ * fb) 0 + slack tol (max (l - ρ * fb) 0)) &&
+  decide (min (h + ρ * fb) MAXF - slack tol (min (h + ρ * fb) MAXF) ≤ hi) &&
+  decide (hi ≤ min (h + κ * fb) MAXF + slack tol (min (h + κ * fb) MAXF))
+
+/-- rational enclosure of π used for the area contract -/
+def piLo : Rat := 31415 / 10000
+def piHi : Rat := 31416 / 10000
+
+/-- some vertex whose `ρ`-ellipse lies inside the domain (so that clipping removes nothing of it) -/
+def hasUnclippedVertex (ρ tb fb : Rat) (pts : List Pt) : Bool :=
+  pts.any (fun p => decide (0 ≤ p.1 - ρ * tb) && decide (0 ≤ p.2 - ρ * fb) && decide (p.2 + ρ * fb ≤ MAXF))
+
+/-- area of the buffered shape: at least the `ρ`-ellipse around an unclipped vertex, at most the outer
+    rectangle, and for a single point at most the `κ`-ellipse -/
+def areaWithin (ρ κt κf tol : Rat) (g : Geom) (b : Bounds) (tb fb area : Rat) : Bool :=
+  let lower := if hasUnclippedVertex ρ tb fb g.boundPts then piLo * (ρ * tb) * (ρ * fb) else 0
+  let rect := (b.en + κt * tb - max (b.st - κt * tb) 0) * (min (b.hi + κf * fb) MAXF - max (b.lo - κf * fb) 0)
+  let upper := match g with
+    | .point .. => min rect (piHi * (κt * tb) * (κf * fb))
+    | _ => rect
+  decide (lower - slack tol lower ≤ area) && decide (area ≤ upper + slack tol upper)
+
+/-! #### area of an unbuffered polygonal geometry from its coordinates (contract `AreaExact`)
+
+  `geometry_to_shapely` is code under test as well (`geometry/conversion.py`), and the harness measures the
+  shapes of the area branch through it: the shoelace area of the coordinates is the independent value
+  (a valid polygon: holes inside the shell, parts of a multi-polygon with disjoint interiors). -/
+
+/-- twice the signed area of a ring (closed implicitly; an explicitly closed ring adds a zero term) -/
+def shoelace2 (ring : List Pt) : Rat :=
+  match ring with
+  | [] => 0
+  | p :: _ => ((ring.zip (ring.tail ++ [p])).map (fun (a, b) => a.1 * b.2 - b.1 * a.2)).foldl (· + ·) 0
+
+def ringArea (ring : List Pt) : Rat := absR (shoelace2 ring) / 2
+
+/-- shell minus holes -/
+def polyArea (rings : List (List Pt)) : Rat :=
+  match rings with
+  | [] => 0
+  | shell :: holes => ringArea shell - (holes.map ringArea).foldl (· + ·) 0
+
+/-- the area of a Polygon / MultiPolygon / BoundingBox read off the coordinates (`none`: another type) -/
+def closedArea : Geom → Option Rat
+  | .polygon rings => some (polyArea rings)
+  | .multiPolygon ps => some ((ps.map polyArea).foldl (· + ·) 0)
+  | .boundingBox s l e h => some (boxArea s l e h)
+  | _ => none
+
 end SE.Affinity
